@@ -17,6 +17,7 @@ import (
 	"runtime"
 	"strings"
 	"sync"
+	"sync/atomic"
 	"time"
 
 	jose "github.com/go-jose/go-jose/v3"
@@ -794,7 +795,30 @@ func (e *c14Exec) serve(b *Browser, step, target string, hdr ...[2]string) *c14S
 	ctx, cancel := context.WithCancel(context.Background())
 	e.cancel, e.release = cancel, make(chan struct{})
 	e.env.up.Take()
-	resp := world.ServeHTTP(b.Px.H, req.WithContext(ctx))
+	// a request that does not come back within 30 s of real time has wedged (a provider call that never
+	// completes although the provider answered or failed): it is abandoned, reported, and this process
+	// explores no further — whatever it waits for is process-wide
+	var resp *world.Resp
+	if c14Wedged.Load() {
+		resp = &world.Resp{Status: 599, Header: http.Header{}}
+	} else {
+		ch := make(chan *world.Resp, 1)
+		go func() {
+			// (the handler's goroutine is "the request's goroutine" for the hang kinds)
+			e.mu.Lock()
+			e.mainG = c14GoID()
+			e.mu.Unlock()
+			ch <- world.ServeHTTP(b.Px.H, req.WithContext(ctx))
+		}()
+		select {
+		case resp = <-ch:
+		case <-time.After(30 * time.Second):
+			c14Wedged.Store(true)
+			cancel()
+			resp = &world.Resp{Status: 599, Header: http.Header{}}
+			e.violate("C14/request-never-returns", "%s: request %q did not return within 30 s although every provider call had been answered or had failed (provider calls %v)", e.sc.Name, step, c14Describe(e.calls[n0:]))
+		}
+	}
 	close(e.release)
 	e.held.Wait()
 	for i := 0; i < 4; i++ {
@@ -1297,7 +1321,7 @@ func c14Explore(c *Ctx, env *c14Env, u c14Unit, bound int) {
 	sc := u.sc
 	var first []int
 	firstObs := ""
-	stats := explore.Run(explore.Config{MaxCost: bound, Deadline: c.Deadline, Shard: u.Sub, Shards: u.Of, ShardDepth: 2}, func(x *explore.Exec, own bool) {
+	stats := explore.Run(explore.Config{MaxCost: bound, Deadline: c.Deadline, Shard: u.Sub, Shards: u.Of, ShardDepth: 2, Stop: c14Wedged.Load}, func(x *explore.Exec, own bool) {
 		res := c14Run(env, sc, x)
 		if !own {
 			return
@@ -1419,6 +1443,10 @@ func init() {
 			env := &c14Env{up: world.NewUpstream("u"), seed: c.Seed}
 			defer env.up.Close()
 			c14FaultBurst(c, env.up)
+			if c14Wedged.Load() {
+				c.Exhaustive = false
+				return
+			}
 			scs := c14Scenarios()
 			bound := 1
 			if !c.Quick() {
@@ -1524,6 +1552,9 @@ func envStr(name string) string {
 // endpoint; then the provider is well again and a login has to succeed. A resource taken per provider call
 // and given back only on the success path (a slot of a limiter, a pooled connection) runs out this way.
 // The final login is given 10 s of real time — spent only if it hangs.
+// c14Wedged: a request of this process never returned; nothing further is explored in it.
+var c14Wedged atomic.Bool
+
 func c14FaultBurst(c *Ctx, up *world.Upstream) {
 	if c.Shards > 1 && c.Shard != c.Shards-1 {
 		return
@@ -1591,6 +1622,7 @@ func c14FaultBurst(c *Ctx, up *world.Upstream) {
 					c.Violate("C14/"+sc.Flow+"/unusable-after-burst-of-transport-failures", fmt.Sprintf("%s: after %d transport failures at %s in a row the provider is well again, but a login does not succeed (callback status %d)", name, hit, ep, f.status), 40, cs)
 				}
 			case <-time.After(10 * time.Second):
+				c14Wedged.Store(true)
 				c.Violate("C14/"+sc.Flow+"/hangs-after-burst-of-transport-failures", fmt.Sprintf("%s: after %d transport failures at %s in a row the provider is well again, but a login does not come back within 10 s (provider calls no longer complete)", name, hit, ep), 40, cs)
 				return
 			}
